@@ -2,6 +2,7 @@ package work
 
 import (
 	"fmt"
+	"strings"
 
 	"github.com/gabriel-vasile/mimetype/internal/verifsim/core"
 	"github.com/gabriel-vasile/mimetype/internal/verifsim/inputs"
@@ -247,6 +248,13 @@ func (c *c14) Plan(seed uint64, tier string, worker, workers, idx int) *Plan {
 
 func (c *c14) Check(rr *RunResult, st *Stats) []Failure {
 	fs := KernelFailures(rr, false)
+	if rr.Out.Class == "panic" && rr.Plan.Traps && strings.HasPrefix(rr.Out.Msg, "user-supplied code panicked") {
+		// the trap detector's panic came up on a goroutine of the library's own (where
+		// nobody can recover it): what the library does with a panicking detector is not stated
+		st.Probe("detector_panic_on_library_goroutine_not_judged")
+		st.Inconclusive++
+		return nil
+	}
 	if rr.Out.Class == "deadlock" && rr.Plan.Traps {
 		// A lock still held after a user-supplied detector panicked (no deferred
 		// unlock) blocks the next writer. Whether locks survive a panicking detector
